@@ -40,12 +40,15 @@ res = {"confirmed": False}
 try:
     rc0, o0 = sh(["bash", os.path.join(src, "demo.sh"), wt], cwd=src)
     res["demo_clean_rc"] = rc0
+    sh("git clean -fdq -e target -e Cargo.lock", cwd=wt)   # the demo's test file must not join the suite
     rc, out = sh(["git", "apply", os.path.join(src, "patch.diff")], cwd=wt)
     res["patch_applies"] = rc == 0
     if rc != 0:
         res["error"] = out[-500:]
     else:
         trc, passed, failed, tout = tests(wt)
+        if trc != 0 or failed:
+            res["tests_tail"] = tout[-1500:]
         res.update(tests_rc=trc, tests_passed=passed, tests_failed=failed)
         rc1, o1 = sh(["bash", os.path.join(src, "demo.sh"), wt], cwd=src)
         res["demo_patched_rc"] = rc1
